@@ -161,6 +161,16 @@ TEXT = {
         "note": "Trusted: Lean kernel + standard axioms; the in-memory object store hook and its log; the trace parser of the Lean driver (not verified; the checker it feeds is).",
         "technique": "Lean 4 proof (13-clause invariant by induction over an interleaving semantics) + trace-refinement correspondence check with a verified step checker",
     },
+    "C10": {
+        "level": "Lean theorems over the object-store machine extended with snapshots and the (repaired) cleanup, every store request a step, any interleaving of any number "
+                 "of clients and cleanups, every call abandonable after any request: in every reachable state either no snapshot was ever stored and the whole chain is "
+                 "present, or a stored snapshot of a chain version exists with every later version present (C10_retained_suffix_retrievable); only versions at or before a "
+                 "stored snapshot are ever retired; served / acknowledged guarantees of C09 persist. Tied to the code by a step checker proved sound w.r.t. the machine: every "
+                 "request of the real CloudServer — each single deletion of each cleanup — must be a step the machine allows; plus a fresh-client walk on the final store.",
+        "design_ref": "DESIGN.md §5 C10",
+        "note": "Trusted: as C09. The pinned cleanup violated the property (F5, F14: two fix commits); the machine describes the repaired rule.",
+        "technique": "Lean 4 proof (invariant over an interleaving semantics with history variables) + trace-refinement correspondence check with a verified step checker",
+    },
     "C11": {
         "level": "Lean theorems: an interrupted add_version leaves either the state of a completed call or the state before it, never a version a completed "
                  "call would have refused; after ANY history of completed and interrupted requests the versions still form one linear chain (so every C08 law keeps "
